@@ -131,6 +131,9 @@ def _labels(x, m):
     return None
 
 
+JSON_CODECS = ("json", "json-installed", "json-installed-file", "json-install-uninstall", "json-nested", "pydantic", "composite")
+
+
 def _codecs(m, jsonmod, kind):
     enc, dec = jsonmod.MeasuredJSONEncoder, jsonmod.MeasuredJSONDecoder
 
@@ -138,12 +141,31 @@ def _codecs(m, jsonmod, kind):
         with jsonmod.codecs_installed():
             return json.loads(json.dumps(x))
 
+    def installed_file(x):
+        # the file API of the standard module (json.dump / json.load) under the installed codecs
+        import io
+        with jsonmod.codecs_installed():
+            doc = io.StringIO()
+            json.dump({"v": [x]}, doc)
+            doc.seek(0)
+            return json.load(doc)["v"][0]
+
+    def installed_global(x):
+        # install() / uninstall() instead of the context manager; decoding of bytes
+        jsonmod.install()
+        try:
+            return json.loads(json.dumps(x).encode("utf-8"))
+        finally:
+            jsonmod.uninstall()
+
     codecs = [(f"pickle{p}", lambda x, p=p: pickle.loads(pickle.dumps(x, protocol=p))) for p in (2, 3, 4, 5)]
     codecs += [
         ("copy", copy.copy),
         ("deepcopy", copy.deepcopy),
         ("json", lambda x: json.loads(json.dumps(x, cls=enc), cls=dec)),
         ("json-installed", installed),
+        ("json-installed-file", installed_file),
+        ("json-install-uninstall", installed_global),
         ("json-nested", lambda x: json.loads(json.dumps({"a": [x, {"b": x}]}, cls=enc), cls=dec)["a"][1]["b"]),
     ]
     if PYD is not None:
@@ -240,7 +262,7 @@ def run_case(case) -> core.Outcome:
                 back = fn(obj)
             except Exception as e:  # noqa
                 where = f"{okind}:{cname}"
-                if okind == "quantity" and cname in ("json", "json-installed", "json-nested", "pydantic", "composite") and (shape in ("symbol-less", "folded") or shape.startswith("collision:")):
+                if okind == "quantity" and cname in JSON_CODECS and (shape in ("symbol-less", "folded") or shape.startswith("collision:")):
                     out.fail(f"C15:quantity-unit-string:{shape}", f"{cname} of {obj!r}: the unit travels as str(unit) = {_safe_str(unit)}, which does not parse back ({type(e).__name__})")
                 elif okind == "unit" and cname == "pydantic" and not base_unit:
                     out.fail("C15:pydantic:unit-field:nested-units", f"pydantic dump/validate of Unit field {obj!r} raised {type(e).__name__}: {str(e)[:160]}")
@@ -279,7 +301,7 @@ def run_case(case) -> core.Outcome:
                 if not eq and back.unit is not obj.unit and _equal_value(c, back, obj):
                     eq = True  # e.g. the documented kg mapping: an equal named unit, equal up to float rounding
                 if not eq and not (isinstance(obj.magnitude, float) and math.isinf(obj.magnitude) and back.magnitude == obj.magnitude and back.unit is obj.unit):
-                    if cname in ("json", "json-installed", "json-nested", "pydantic", "composite") and back.unit is not obj.unit and (shape in ("symbol-less", "folded") or shape.startswith("collision:")):
+                    if cname in JSON_CODECS and back.unit is not obj.unit and (shape in ("symbol-less", "folded") or shape.startswith("collision:")):
                         out.fail(f"C15:quantity-unit-string:{shape}", f"{cname} of {obj!r} came back as {back!r}")
                     elif back.unit is not obj.unit and not _equal_value(c, back, obj):
                         out.fail(f"C15:quantity:value:{cname}:{shape}", f"{cname} round trip of {obj!r} returned {back!r}, which is not equal")
